@@ -105,7 +105,6 @@ class Model:
                 self.conditionals_merged += alpha.merge_conditional_assignments(self.modules[name])                            # if c: x = a else: x = b  ->  x = a if c else b
                 self.one_armed_merged += helpers.merge_one_armed(self.modules[name], ifs_table.get(name, set()), tab)              # new `if c: x = E`  ->  x = E if c else x
                 alpha.normalise_polarity(self.modules[name])
-                helpers.ifexp_to_or(self.modules[name])                                # x if x else y  is  x or y
                 self.param_rebinds_inlined = getattr(self, 'param_rebinds_inlined', []) + helpers.inline_param_rebinds(name, self.modules[name], param_rebinds.get(name, set()))
         for m, tree in self.modules.items():
             imp, assigns = {}, {}
